@@ -349,7 +349,7 @@ def apply_history(args):
         powers = [2.0e4 * npin * f for f in spec['pf']]
         c = scenarios.make_core(rng, types, lay, [0.5] * n, gap_model='none',
                                 coolant='const', asm_power=powers, L=0.3,
-                                ncell=1)
+                                ncell=1, power_order=2)
         # the power of every assembly: the integral of its own profile
         ptrue = []
         for i in range(n):
@@ -364,10 +364,47 @@ def apply_history(args):
                         tot += cases.cell_integral(coeffs, pw_['z'][ci],
                                                    pw_['z'][ci + 1])
             ptrue.append(tot)
+        objective = spec.get('objective', 'peak coolant temp')
+        if objective != 'peak coolant temp':
+            for t_ in c['types'].values():
+                t_['FuelModel'] = {
+                    'gap_thickness': 0.0, 'clad_material': 'ht9',
+                    'r_frac': [0.0, 0.33333, 0.66667],
+                    'pu_frac': [0.2, 0.2, 0.2], 'zr_frac': [0.1, 0.1, 0.1],
+                    'porosity': [0.25, 0.2, 0.15]}
+            # one grouped assembly whose pin power, in its bottom cell, has
+            # its peak on the cell boundary and a minimum inside the cell
+            # (the grouping parameter is the peak of the pin-averaged linear
+            # power over the height, wherever it lies)
+            gp = [i for i in range(n) if names[i] in ('ta', 'tb')]
+            tgt = gp[spec['seed'] % len(gp)]
+            pw_ = c['power'][str(tgt + 1)]
+            base = max(abs(co[0]) for co in pw_['pins'][0])
+            pw_['pins'][0] = [[0.7 * base, -0.9 * base, 2.6 * base]
+                              for _ in pw_['pins'][0]]
+            ptrue = None
         t_out = spec.get('t_out', 773.15)
+        # the grouping parameter of every assembly from its own profile:
+        # total power, or the peak over the height of the pin-averaged
+        # linear power (dense sampling of the polynomials)
+        gparam = []
+        for i in range(n):
+            pw_ = c['power'][str(i + 1)]
+            if objective == 'peak coolant temp':
+                gparam.append(cases.asm_power_integral(c, i + 1))
+            else:
+                best = 0.0
+                for cell in pw_['pins']:
+                    avg = np.mean(np.array([list(co) + [0.0] * (3 - len(co))
+                                            for co in cell], float), axis=0)
+                    zeta = np.linspace(-0.5, 0.5, 4001)
+                    best = max(best, float(np.max(
+                        sum(avg[k] * zeta ** k for k in range(len(avg))))))
+                gparam.append(best)
+        ptrue = [cases.asm_power_integral(c, i + 1) for i in range(n)]
         c['orificing'] = {
             'assemblies_to_group': [k for k in ('ta', 'tb') if k in names],
-            'n_groups': spec['ng'], 'value_to_optimize': 'peak coolant temp',
+            'n_groups': spec['ng'], 'value_to_optimize': objective,
             'bulk_coolant_temp': t_out, 'group_cutoff': spec.get('cutoff', 0.05),
             'group_cutoff_delta': spec.get('delta', 0.005)}
         path = cases.write_case(c, str(d))
@@ -406,7 +443,12 @@ def apply_history(args):
         # bulk outlet temperature target
         ngflow = [fq(ptrue[p] / CP / (t_out - T_IN), quantum)
                   if p not in gpos else 0 for p in range(n)]
+        gmax = max(gparam) or 1.0
         ev.append({'e': 'Apply', 'ids': ids, 'gpos': gpos, 'grp': grp,
+                   # grouping parameter of the k-th grouped assembly (1e6 =
+                   # the largest of the core)
+                   'gparam': [int(round(gparam[p] / gmax * 1e6))
+                              for p in gpos],
                    'ng': spec['ng'], 'm': [fq(x, quantum) for x in m],
                    'found': found, 'ngflow': ngflow,
                    'tol': max(2, FQ // 200000)})
